@@ -14,7 +14,7 @@ def run(ctx):
         scen[0].pop("tid", None)
     else:
         scen = ctx.gen("Gen_C20", "Gen_C20")
-        scen = scen[ctx.seed % 2::2] if ctx.quick else scen
+        # quick = thorough universe (no subsampling)
     traces = ctx.drive("c20", scen, timeout=3000)
     ctx.validate("Trace_C20", traces, timeout=3000)
     ctx.rule = RULE
